@@ -82,12 +82,12 @@ pub fn case(ctx: &mut Ctx, idx: u64) {
             ..Mix::default()
         }
     };
-    let Some((mc, map)) = gen::gen_domain_map(&mut rng, &mx, Domain::Realistic) else {
+    let Some((mc, map)) = gen::gen_domain_map_ext(&mut rng, &mx, Domain::Realistic, 3, 15) else {
         ctx.count("skipped_no_domain_map");
         return;
     };
     let mode = gen::pick_mode(&mut rng, &map);
-    let mut spec = c02::settings(&mut rng, mode);
+    let mut spec = c02::settings(&mut rng, mode, &map);
     let mname = mode_name(mode);
     ctx.count(&format!("mode:{mname}"));
     // a Difficulty that still carries a passed_objects value (e.g. settings reused from a failed play): the gradual
